@@ -21,8 +21,14 @@ import (
 type vxKV struct{ k, v []byte }
 
 // vxKey builds a key of length 0..2 from a small alphabet plus one free byte.
+// quick: keys of length 0..2 with <= 2 operations; thorough: keys of length 0..1 with <= 3 operations
+// (3 operations over length-2 keys exceed the path budget)
 func vxKey(tag string) []byte {
-	n := vx.Choice(tag+".len", 3)
+	maxLen := 2
+	if vx.Thorough() {
+		maxLen = 1
+	}
+	n := vx.Choice(tag+".len", maxLen+1)
 	k := vx.Bytes(tag, n)
 	return k
 }
@@ -79,7 +85,7 @@ func vxModelView(m []vxKV, prefix []byte, withUB bool) []vxKV {
 
 // C15-H2a: point operations, range delete, and the set of keys an iterator sees, in order.
 func VxC15MemoryRangeView() {
-	vx.Bound("<= 2 (thorough: 3) store operations from {Put, Delete, DeleteRange} over keys of length 0..2 (bytes symbolic); iterator with symbolic prefix (length 0..2) and upper-bound flag; full forward scan")
+	vx.Bound("<= 2 store operations from {Put, Delete, DeleteRange} over keys of length 0..2 (thorough: <= 3 operations over keys of length 0..1), bytes symbolic; iterator with symbolic prefix (length 0..2) and upper-bound flag; full forward scan")
 	d := New()
 	var model []vxKV
 	maxOps := 2
@@ -277,7 +283,7 @@ func VxC15MemoryPositioning() {
 // C15-H2c: write batches: all-or-nothing, later operations win, indexed reads see the batch's own
 // writes over the database, Close drops everything, helper Update applies nothing when the callback fails.
 func VxC15MemoryBatch() {
-	vx.Bound("database pre-loaded with 0..1 key; batch of <= 2 (thorough: 3) operations from {Put, Delete, DeleteRange} (keys length 0..2, symbolic); then Write | Close | failing Update callback; probe key symbolic")
+	vx.Bound("database pre-loaded with 0..1 key; batch of <= 2 operations from {Put, Delete, DeleteRange} over keys of length 0..2 (thorough: <= 3 operations over keys of length 0..1), symbolic; then Write | Close | failing Update callback; probe key symbolic")
 	d := New()
 	var base []vxKV
 	if vx.Choice("preload", 2) == 1 {
